@@ -206,6 +206,86 @@ def c_lints(ctx, P, scope, rule="C-LINT", tus=None):
     copy_paste(ctx, P, scope, tus=tus)
     dead_stores(ctx, P, scope, tus=tus)
     width_and_flags(ctx, P, scope, tus=[k for k in (tus or LIB_TUS + ["kastore"]) if k != "module"])
+    map_two_pass(ctx, P, scope, tus=[k for k in (tus or LIB_TUS) if k != "module"])
+    return n
+
+
+# (function, map) -> why reading the map at a loaded reference inside the loop that fills it is sound
+MAP_ONE_PASS_OK = {
+    # none on today's tree: simplifier_output_sites was the one single-pass use and it was a defect (F11, repaired)
+}
+
+
+def _loop_counter(lp):
+    inc = lp.kids[3] if len(lp.kids) > 3 else None
+    if inc is None:
+        return None
+    for x in walk(inc):
+        if x.k == "UnaryOperator" and x.op in ("++", "--"):
+            return estr(x.kids[0])
+        if x.k == "CompoundAssignOperator":
+            return estr(x.kids[0])
+    return None
+
+
+def map_two_pass(ctx, P, scope, rule="MAP-TWO-PASS", tus=None):
+    ctx.rule(rule, "an id map (`M[k] = new id of row k`) is complete before it is consulted at a stored reference: no loop both "
+                   "fills M at its own counter (`M[k] = ...`) and reads M at an index loaded from a table row (`M[row.parent]`, "
+                   "`M[ind.parents[j]]`): a reference to a LATER row would be translated with a stale entry.  Filling and remapping "
+                   "are separate passes; the one single-pass use confirmed by reading relies on a sortedness requirement and is "
+                   "frozen with its reason")
+    n = 0
+    for key in (tus or LIB_TUS):
+        tu = P.tus[key]
+        for fn in tu.funcs.values():
+            if not scope(key, fn.name):
+                continue
+            for lp in walk(fn.body):
+                if lp.k != "ForStmt":
+                    continue
+                k = _loop_counter(lp)
+                if not k:
+                    continue
+                body = lp.kids[-1]
+                writes = {}
+                for x in walk(body):
+                    if x.k == "BinaryOperator" and x.op == "=":
+                        l = strip(x.kids[0])
+                        if l is not None and l.k == "ArraySubscriptExpr" and estr(l.kids[1]) == k:
+                            writes.setdefault(estr(l.kids[0]), x)
+                if not writes:
+                    continue
+                # locals assigned in the loop from a table row (`parent_ind = ind.parents[j]`)
+                loaded = set()
+                for x in walk(body):
+                    if x.k == "BinaryOperator" and x.op == "=":
+                        l = strip(x.kids[0])
+                        if l is not None and l.k == "DeclRefExpr" and l.ref != k and \
+                                any(y.k in ("MemberExpr", "ArraySubscriptExpr") for y in walk(x.kids[1])):
+                            loaded.add(l.ref)
+                for m, w in sorted(writes.items()):
+                    if not re.search(r"map|_id$|ids$", m):
+                        continue
+                    n += 1
+                    bad = None
+                    for x in walk(body):
+                        if x.k == "ArraySubscriptExpr" and estr(x.kids[0]) == m:
+                            idx = strip(x.kids[1])
+                            if idx is None or estr(idx) == k:
+                                continue
+                            if any(y.k in ("MemberExpr", "ArraySubscriptExpr") for y in walk(idx)):
+                                bad = x
+                                break
+                            if idx.k == "DeclRefExpr" and idx.ref in loaded:
+                                bad = x
+                                break
+                    if bad is not None and (fn.name, m) in MAP_ONE_PASS_OK:
+                        ctx.ob(rule, "%s|%s" % (fn.name, m), True, tu.loc(bad), "single pass accepted: " + MAP_ONE_PASS_OK[(fn.name, m)])
+                    else:
+                        ctx.ob(rule, "%s|%s" % (fn.name, m), bad is None, tu.loc(bad if bad is not None else w),
+                               "`%s` is filled at `%s` and not consulted at stored references in the same loop" % (m, k) if bad is None else
+                               "`%s` is read while the loop over `%s` is still filling `%s[%s]`: a reference to a later row sees a stale entry"
+                               % (estr(bad), k, m, k))
     return n
 
 
